@@ -160,6 +160,8 @@ def reader_contract(data, sizes, have):
         elif err == 0:
             if k > 0 and not d:
                 return ('read:eof' if pos == len(data) else 'read:stall', 'nothing read and no io.EOF with a buffer of %d and %d bases left' % (k, len(data) - pos))
+        elif err == 7:
+            return ('read:lost-bytes', 'call %d wrote bases into the buffer beyond the %d bytes it reports (bytes delivered by ReadAt but not counted)' % (i, len(d)))
         else:
             return ('read:error', 'error class %d' % err)
     return None
@@ -243,17 +245,20 @@ def oracle(case, o):
             if qo['open'] != 2:
                 bad.append(('read:open:bad-range', 'SeqRange(%d,%d) on length %d opened with class %s' % (s, e, len(seq), qo['open']), None))
             continue
-        if qo['open'] != 0:
+        if qo['open'] != 0 or qo.get('eager_open', 0) != 0:
             bad.append((fsig('read:open', ft), 'valid range refused: ' + qo.get('open_msg', ''), None))
             continue
-        if qo.get('panic'):
-            bad.append((fsig('read:panic', ft), 'Read panicked: %s (query %s)' % (qo['panic'], q), None))
-            continue
         want = ideal_reads(seq[s:e], q['sizes'])
-        have = [(r['data'], r['err']) for r in qo['reads']]
-        why = reader_contract(seq[s:e], q['sizes'], have)
-        if why:
-            bad.append((fsig(why[0], ft), 'record %s [%d,%d) sizes %s: %s; got %s, an ideal reader gives %s' % (bytes(q['name']), s, e, q['sizes'], why[1], have, want), want))
+        # the same script over bytes.Reader and over a ReaderAt that reports io.EOF together with the last bytes of the file
+        for rd, pk, tag in (('reads', 'panic', ''), ('eager_reads', 'eager_panic', ':eager-eof-readerat')):
+            if qo.get(pk):
+                bad.append((fsig('read:panic' + tag, ft), 'Read panicked: %s (query %s)' % (qo[pk], q), None))
+                continue
+            have = [(r['data'], r['err']) for r in qo.get(rd, [])]
+            why = reader_contract(seq[s:e], q['sizes'], have)
+            if why:
+                bad.append((fsig(why[0] + tag, ft), 'record %s [%d,%d) sizes %s%s: %s; got %s, an ideal reader gives %s' % (
+                    bytes(q['name']), s, e, q['sizes'], ' over the eager-EOF ReaderAt' if tag else '', why[1], have, want), want))
     return bad
 
 
@@ -453,11 +458,13 @@ def cidx(o):
 
 
 def cquery(q, qo):
-    reads = ['(false, %s, %s)' % (clist(r['data']), cz(r['err'])) for r in qo['reads']]
-    if qo.get('panic'):
-        reads.append('(true, [], 0)')
-    return '(mkQ %s %s %s %s %s %s [%s])' % (clist(q['name']), cb(q['whole']), cz(q['s']), cz(q['e']), clist(q['sizes']),
-                                            cz(qo['open']), '; '.join(reads))
+    def reads(rk, pk):
+        rs = ['(false, %s, %s)' % (clist(r['data']), cz(r['err'])) for r in qo.get(rk, [])]
+        if qo.get(pk):
+            rs.append('(true, [], 0)')
+        return '[%s]' % '; '.join(rs)
+    return '(mkQ %s %s %s %s %s %s %s %s)' % (clist(q['name']), cb(q['whole']), cz(q['s']), cz(q['e']), clist(q['sizes']),
+                                             cz(qo['open']), reads('reads', 'panic'), reads('eager_reads', 'eager_panic'))
 
 
 def cstruct(f):
@@ -604,7 +611,7 @@ def run(res, rng, tier):
     ncoq = 0
     nsh = 4 if tier == 'quick' else 16
     for c, o in zip(cases, obs):
-        res.evaluations += 1 + len(c['queries'])
+        res.evaluations += 1 + 2 * len(c['queries'])     # every query over bytes.Reader and over the eager-EOF ReaderAt
         res.count('file/%s/recs=%d' % (c['family'], len(c['struct']['recs']) if c['struct'] else -1))
         if c['struct'] is not None:
             for r in c['struct']['recs']:
@@ -643,7 +650,7 @@ def run(res, rng, tier):
     lobs = core.run_harness('c19', [dict(long=dict(pre=lc['pre'], n=lc['n'], post=lc['post']), queries=lc['queries']) for lc in lcases])
     lterms = []
     for lc, o in zip(lcases, lobs):
-        res.evaluations += 1 + len(lc['queries'])
+        res.evaluations += 1 + 2 * len(lc['queries'])
         fits = lines_fit(lc['file'])
         res.count('long-line/%s/%s/%s' % ('crlf' if lc['struct']['recs'][0]['crlf'] else 'lf', lc['tail'], 'fits' if fits else 'too-long'))
         res.nontrivial.add(('long', lc['n'], lc['tail'], lc['struct']['recs'][0]['crlf']))
@@ -739,7 +746,7 @@ ASSUME = [
     'bytes.TrimSpace is modelled on ASCII input (bytes < 128); files with multi-byte UTF-8 white space are outside the model',
     'the bufio.Scanner with the custom split function is the line tokeniser `lines` with the limit of bufio.MaxScanTokenSize bytes per token (modelled: scan_tokens; an input reader that reports io.EOF on a separate call, as bytes.Reader and os.File do)',
     'ReadFrom splits lines at LF (CR before it dropped) and fields at TAB, without quoting rules (as the code does since the repair of C19-quote-in-name)',
-    'the io.ReaderAt under File delivers exactly the file bytes (bytes.Reader semantics)',
+    'the io.ReaderAt under File keeps the io.ReaderAt contract over the file bytes (quantified in the theorems: nil or io.EOF when a full read ends at the end of the file); exercised with bytes.Reader and an eager-EOF double',
     'Go int/int64 arithmetic does not overflow (offsets < 2^63)',
 ]
 
@@ -749,6 +756,6 @@ CLAIM = dict(
          'every range read with any buffer-size script returns exactly the requested bases and io.EOF as an ideal reader would, and the TSV form round-trips. '
          'position/endOfLineOffset and the blank-line arm are regenerated from the Go source; the model is run against the implementation on every check.',
     note='Trusted: Coq kernel; hand model (validated by correspondence on every run); ASCII TrimSpace; lines within the bufio.Scanner limit (beyond it: proved to be an error); '
-         'exact ReaderAt; no integer overflow. No axioms.',
+         'any contract-conforming ReaderAt (quantified); no integer overflow. No axioms.',
     technique='Coq proof over executable model + source-regenerated arithmetic + vm_compute correspondence + naive FASTA slicer oracle',
     design='6/C19')
